@@ -138,8 +138,18 @@ def norm_agree(eng, res, fi, rule="R-NORM-AGREE"):
                     ds = flow.reaching(pv.id, cfg._foriter[id(lp)])
                     raw = ds[0].value if len(ds) == 1 and ds[0].kind == "assign" else pv
                 same_desc = isinstance(raw, ast.BinOp) and src(raw.left) == f"{s.a0}.transitions" and src(raw.right) == f"{s.a0}.weight"
-                ok = okn and aligned and same_desc
-                why = f"{whyn}; target aligned with list position: {aligned}; list of the source descriptor: {same_desc}"
+                # the whole list is one probability vector: every entry is emitted, by one site, as the reaction kind
+                fam = [x for x in sites if x.loops and x.loops[0] is lp]
+                one_kind = len(fam) == 1 and s.key == "prob"
+                from ..lits import lits as _lits
+
+                gl = set()
+                for t_, pol_ in site_guards(cfg, s.call, lp):
+                    gl.add(t_)
+                only_nonneg = all(("<= " + src(v)) in t_ or (src(v) + " >= ") in t_ or t_.startswith("0 <= ") for t_ in gl)
+                ok = okn and aligned and same_desc and one_kind and only_nonneg
+                why = (f"{whyn}; target aligned with list position: {aligned}; list of the source descriptor: {same_desc}; emitted by one site as `prob`: {one_kind}"
+                       f" ({len(fam)} site(s), kind {s.key}); extra conditions on an entry: {sorted(gl)}")
             res.ob(rule, fi, role, "listed transition weights: probabilities are the source descriptor's list divided by its sum, entry i going to descriptor i", s.call, ok, why)
             continue
         if not (isinstance(v, ast.BinOp) and isinstance(v.op, ast.Div) and isinstance(v.right, ast.Name)):
